@@ -93,7 +93,7 @@ Proof.
       * intros _. apply BL_head. apply N.compare_lt_iff. exact E.
   - intros H. induction H as [c y|a b x y Hab|a x y _ IH]; cbn.
     + reflexivity.
-    + apply N.compare_lt_iff in Hab. rewrite Hab. reflexivity.
+    + unfold N.lt in Hab. rewrite Hab. reflexivity.
     + rewrite N.compare_refl. exact IH.
 Qed.
 
@@ -262,9 +262,9 @@ Proof.
     + apply PR_pre; assumption.
   - intros H. unfold prec_cmp.
     destruct H as [a b H1|a b H1 H2|a b H1 H2 H3|a b H1 H2 H3 Ha Hb|a b H1 H2 H3 Ha Hb Hlt].
-    + apply N.compare_lt_iff in H1. rewrite H1. reflexivity.
-    + rewrite H1, N.compare_refl. apply N.compare_lt_iff in H2. rewrite H2. reflexivity.
-    + rewrite H1, H2, !N.compare_refl. apply N.compare_lt_iff in H3. rewrite H3. reflexivity.
+    + unfold N.lt in H1. rewrite H1. reflexivity.
+    + rewrite H1, N.compare_refl. unfold N.lt in H2. rewrite H2. reflexivity.
+    + rewrite H1, H2, !N.compare_refl. unfold N.lt in H3. rewrite H3. reflexivity.
     + rewrite H1, H2, H3, !N.compare_refl. apply pre_cmp_lt_iff. left. split; assumption.
     + rewrite H1, H2, H3, !N.compare_refl. apply pre_cmp_lt_iff. right. repeat split; assumption.
 Qed.
@@ -362,6 +362,23 @@ Proof.
     lia.
 Qed.
 
+Lemma Ncmp_lt n m : (n ?= m) = Lt -> n < m.
+Proof. apply N.compare_lt_iff. Qed.
+Lemma Ncmp_gt n m : (n ?= m) = Gt -> m < n.
+Proof. apply N.compare_gt_iff. Qed.
+Lemma lt_Ncmp n m : n < m -> (n ?= m) = Lt.
+Proof. apply N.compare_lt_iff. Qed.
+Lemma gt_Ncmp n m : m < n -> (n ?= m) = Gt.
+Proof. apply N.compare_gt_iff. Qed.
+
+Lemma N_add_compare_l p n m : (p + n ?= p + m) = (n ?= m).
+Proof.
+  destruct (n ?= m) eqn:E.
+  - apply N.compare_eq_iff in E. subst. apply N.compare_refl.
+  - apply Ncmp_lt in E. apply lt_Ncmp. lia.
+  - apply Ncmp_gt in E. apply gt_Ncmp. lia.
+Qed.
+
 (* same length: text order = numeric order *)
 Lemma same_len_cmp x : forall y,
   is_num x = true -> is_num y = true -> List.length x = List.length y ->
@@ -376,14 +393,14 @@ Proof.
     rewrite !dec_val_cons. rewrite <- Hl in *.
     remember (pow10 (List.length x)) as P eqn:EP.
     cbn [bs_cmp]. destruct (a ?= b) eqn:E.
-    + apply N.compare_eq_iff in E. subst b. rewrite N.add_compare_mono_l.
+    + apply N.compare_eq_iff in E. subst b. rewrite N_add_compare_l.
       apply IH; assumption.
-    + apply N.compare_lt_iff in E. symmetry. apply N.compare_lt_iff.
+    + apply Ncmp_lt in E. symmetry. apply lt_Ncmp.
       remember (a - 48) as da eqn:Eda. remember (b - 48) as db eqn:Edb.
       assert (Hd : da + 1 <= db) by lia.
       assert ((da + 1) * P <= db * P) by (apply N.mul_le_mono_r; exact Hd).
       lia.
-    + apply N.compare_gt_iff in E. symmetry. apply N.compare_gt_iff.
+    + apply Ncmp_gt in E. symmetry. apply gt_Ncmp.
       remember (a - 48) as da eqn:Eda. remember (b - 48) as db eqn:Edb.
       assert (Hd : db + 1 <= da) by lia.
       assert ((db + 1) * P <= da * P) by (apply N.mul_le_mono_r; exact Hd).
@@ -430,9 +447,9 @@ Proof.
     rewrite <- (same_len_cmp x y (proj1 Hx) (proj1 Hy) El).
     destruct (bs_cmp x y) eqn:E; try reflexivity.
     apply bs_cmp_eq_iff in E. contradiction.
-  - apply Nat.compare_lt_iff in El. symmetry. apply N.compare_lt_iff.
+  - apply Nat.compare_lt_iff in El. symmetry. apply lt_Ncmp.
     apply shorter_lt; assumption.
-  - apply Nat.compare_gt_iff in El. symmetry. apply N.compare_gt_iff.
+  - apply Nat.compare_gt_iff in El. symmetry. apply gt_Ncmp.
     apply shorter_lt; assumption.
 Qed.
 
@@ -503,9 +520,12 @@ Definition c_build : cre :=
   CCat (CCls [(43,43)])
     (CCat (CCat c_bid (CCat (CStar (CCat c_dot (CCat c_bid CEps))) CEps)) CEps).
 
+Definition c_optpre : cre := CAlt CEps c_pre.
+Definition c_optbuild : cre := CAlt CEps c_build.
+
 Definition c_semver : cre :=
   CCat CEps (CCat c_num (CCat c_dot (CCat c_num (CCat c_dot (CCat c_num
-    (CCat (CAlt CEps c_pre) (CCat (CAlt CEps c_build) (CCat CEps CEps)))))))).
+    (CCat c_optpre (CCat c_optbuild (CCat CEps CEps)))))))).
 
 Lemma core_semver : core gen_re_semver = c_semver.
 Proof. reflexivity. Qed.
@@ -568,91 +588,472 @@ Proof.
   eapply Forall_impl; [|exact H]. apply digit_is_ident_char.
 Qed.
 
+Ltac cls_norm :=
+  repeat match goal with
+  | H : in_cls _ [(?k, ?k)] = true |- _ => apply cls_one in H; subst
+  | H : in_cls _ [(49,57)] = true |- _ => apply cls_19 in H; destruct H
+  | H : in_cls _ [(45,45); (65,90); (97,122)] = true |- _ => apply cls_letter in H; destruct H
+  | H : in_cls _ [(45,45); (48,57); (65,90); (97,122)] = true |- _ => apply cls_ic in H
+  | H : Forall (fun c => in_cls c [(48,57)] = true) _ |- _ => apply Forall_digits in H
+  | H : Forall (fun c => in_cls c [(45,45); (48,57); (65,90); (97,122)] = true) _ |- _ =>
+      apply Forall_ic in H
+  end.
+
 (* ---- components ---- *)
+Lemma good_num_zero : good_num [48].
+Proof.
+  split; [reflexivity|split; [discriminate|]]. intros t E. injection E as <-. reflexivity.
+Qed.
+
+Lemma good_num_nz c s : is_digit c = true -> c <> 48 -> is_num s = true -> good_num (c :: s).
+Proof.
+  intros Hc Hc0 Hs. split; [|split].
+  - rewrite is_num_cons. apply andb_true_intro; split; assumption.
+  - discriminate.
+  - intros t E. injection E as E _. contradiction.
+Qed.
+
+Lemma good_num_pre_ident s : good_num s -> pre_ident s.
+Proof.
+  intros (Hn & Hne & H0). split; [|split].
+  - apply is_num_all_ident; assumption.
+  - assumption.
+  - intros _. assumption.
+Qed.
+
 Lemma lang_c_num s : lang c_num s -> good_num s.
 Proof.
-  intros H. unfold c_num in H. inv_lang.
-  - apply cls_one in Hc. subst c. repeat split; [discriminate|].
-    intros t E. injection E as <-. reflexivity.
-  - rewrite app_nil_r. apply cls_19 in Hc. destruct Hc as [Hc Hc0].
-    apply Forall_digits in H. cbn [app]. repeat split.
-    + rewrite is_num_cons, Hc, H. reflexivity.
-    + discriminate.
-    + intros t E. injection E as E _. contradiction.
+  intros H. unfold c_num in H. inv_lang; cls_norm; rewrite ?app_nil_r; cbn [app].
+  - apply good_num_zero.
+  - apply good_num_nz; assumption.
+Qed.
+
+Lemma alnum_pre_ident ds c rest :
+  is_num ds = true -> is_ident_char c = true -> is_digit c = false -> all_ident rest ->
+  pre_ident (ds ++ c :: rest).
+Proof.
+  intros Hds Hc Hcd Hrest. split; [|split].
+  - unfold all_ident. rewrite forallb_app. cbn [forallb].
+    apply andb_true_intro; split; [apply is_num_all_ident; assumption|].
+    apply andb_true_intro; split; assumption.
+  - intros E. apply app_eq_nil in E. destruct E as [_ E]. discriminate.
+  - intros Hn. exfalso. unfold is_num in Hn. rewrite forallb_app in Hn. cbn [forallb] in Hn.
+    rewrite Hcd, andb_false_r in Hn. discriminate.
 Qed.
 
 Lemma lang_c_preid s : lang c_preid s -> pre_ident s.
 Proof.
-  intros H. unfold c_preid in H. inv_lang.
-  - apply cls_one in Hc. subst c. repeat split; [discriminate|].
-    intros _ t E. injection E as <-. reflexivity.
-  - rewrite app_nil_r. apply cls_19 in Hc. destruct Hc as [Hc Hc0].
-    apply Forall_digits in H. cbn [app]. repeat split.
-    + apply is_num_all_ident. rewrite is_num_cons, Hc, H. reflexivity.
-    + discriminate.
-    + intros _ t E. injection E as E _. contradiction.
-  - rewrite app_nil_r. apply cls_letter in Hc. destruct Hc as [Hc Hcd].
-    apply Forall_digits in H0. apply Forall_ic in H. cbn [app]. repeat split.
-    + unfold all_ident. rewrite forallb_app. cbn [forallb].
-      rewrite (is_num_all_ident _ H0), Hc, H. reflexivity.
-    + destruct s0; discriminate.
-    + intros Hn. exfalso. unfold is_num in Hn. rewrite forallb_app in Hn. cbn [forallb] in Hn.
-      rewrite Hcd, andb_false_r in Hn. discriminate.
+  intros H. unfold c_preid in H. inv_lang; cls_norm; rewrite ?app_nil_r; cbn [app].
+  - apply good_num_pre_ident, good_num_zero.
+  - apply good_num_pre_ident, good_num_nz; assumption.
+  - apply alnum_pre_ident; assumption.
 Qed.
 
 Lemma lang_c_bid s : lang c_bid s -> build_ident s.
 Proof.
-  intros H. unfold c_bid in H. inv_lang. apply cls_ic in Hc. apply Forall_ic in H.
-  cbn [app]. split; [|discriminate].
-  unfold all_ident. cbn [forallb]. rewrite Hc. exact H.
+  intros H. unfold c_bid in H. inv_lang; cls_norm. cbn [app]. split; [|discriminate].
+  unfold all_ident. cbn [forallb]. apply andb_true_intro; split; assumption.
 Qed.
 
 Lemma lang_c_pre s :
   lang c_pre s -> exists x l, s = 45 :: dotted x l /\ pre_ident x /\ Forall pre_ident l.
 Proof.
-  intros H. unfold c_pre in H. inv_lang. apply cls_one in Hc. subst c.
-  apply (lang_star_sep 46 c_preid pre_ident _ lang_c_preid) in H1.
-  destruct H1 as (l & -> & Hl). apply lang_c_preid in H.
-  exists s0, l. rewrite !app_nil_r. cbn [app]. repeat split; assumption.
+  intros H. unfold c_pre in H. inv_lang. cls_norm.
+  match goal with Hs : lang (CStar _) _ |- _ =>
+    apply (lang_star_sep 46 c_preid pre_ident _ lang_c_preid) in Hs;
+    destruct Hs as (l & -> & Hl) end.
+  match goal with Hx : lang c_preid ?x |- _ => apply lang_c_preid in Hx; exists x, l end.
+  rewrite !app_nil_r. cbn [app]. unfold dotted. split; [reflexivity|split; assumption].
 Qed.
 
 Lemma lang_c_build s :
   lang c_build s -> exists x l, s = 43 :: dotted x l /\ build_ident x /\ Forall build_ident l.
 Proof.
-  intros H. unfold c_build in H. inv_lang. apply cls_one in Hc. subst c.
-  apply (lang_star_sep 46 c_bid build_ident _ lang_c_bid) in H1.
-  destruct H1 as (l & -> & Hl). apply lang_c_bid in H.
-  exists s0, l. rewrite !app_nil_r. cbn [app]. repeat split; assumption.
+  intros H. unfold c_build in H. inv_lang. cls_norm.
+  match goal with Hs : lang (CStar _) _ |- _ =>
+    apply (lang_star_sep 46 c_bid build_ident _ lang_c_bid) in Hs;
+    destruct Hs as (l & -> & Hl) end.
+  match goal with Hx : lang c_bid ?x |- _ => apply lang_c_bid in Hx; exists x, l end.
+  rewrite !app_nil_r. cbn [app]. unfold dotted. split; [reflexivity|split; assumption].
+Qed.
+
+Lemma lang_c_optpre s :
+  lang c_optpre s -> exists o, opt_wf pre_ident o /\ s = render_opt 45 o.
+Proof.
+  intros H. unfold c_optpre in H. apply lang_alt_inv in H. destruct H as [H|H].
+  - apply lang_eps_inv in H. subst s. exists None. split; [exact I|reflexivity].
+  - apply lang_c_pre in H. destruct H as (x & l & -> & Hx & Hl).
+    exists (Some (x, l)). split; [split; assumption|reflexivity].
+Qed.
+
+Lemma lang_c_optbuild s :
+  lang c_optbuild s -> exists o, opt_wf build_ident o /\ s = render_opt 43 o.
+Proof.
+  intros H. unfold c_optbuild in H. apply lang_alt_inv in H. destruct H as [H|H].
+  - apply lang_eps_inv in H. subst s. exists None. split; [exact I|reflexivity].
+  - apply lang_c_build in H. destruct H as (x & l & -> & Hx & Hl).
+    exists (Some (x, l)). split; [split; assumption|reflexivity].
 Qed.
 
 Lemma lang_c_semver w : lang c_semver w -> exists p, wf p /\ w = render p.
 Proof.
-  intros H. unfold c_semver in H. inv_lang.
-  all: repeat match goal with
-       | H : in_cls _ [(46,46)] = true |- _ => apply cls_one in H; subst
-       | H : lang c_num _ |- _ => apply lang_c_num in H
-       | H : lang c_pre _ |- _ =>
-           apply lang_c_pre in H; let x := fresh "x" in let l := fresh "l" in
-           destruct H as (x & l & -> & ? & ?)
-       | H : lang c_build _ |- _ =>
-           apply lang_c_build in H; let x := fresh "bx" in let l := fresh "bl" in
-           destruct H as (x & l & -> & ? & ?)
-       end.
-  - exists (mk_parts s s1 s3 None None). split.
-    + unfold wf, opt_wf; cbn. tauto.
-    + unfold render; cbn. rewrite ?app_nil_r. reflexivity.
-  - exists (mk_parts s s1 s3 None (Some (bx, bl))). split.
-    + unfold wf, opt_wf; cbn. tauto.
-    + unfold render; cbn. rewrite ?app_nil_r. reflexivity.
-  - exists (mk_parts s s1 s3 (Some (x, l)) None). split.
-    + unfold wf, opt_wf; cbn. tauto.
-    + unfold render; cbn. rewrite ?app_nil_r. reflexivity.
-  - exists (mk_parts s s1 s3 (Some (x, l)) (Some (bx, bl))). split.
-    + unfold wf, opt_wf; cbn. tauto.
-    + unfold render; cbn. rewrite ?app_nil_r. reflexivity.
+  intros H. unfold c_semver in H. inv_lang. cls_norm.
+  repeat match goal with
+  | H : lang c_num _ |- _ => apply lang_c_num in H
+  | H : lang c_optpre _ |- _ => apply lang_c_optpre in H; destruct H as (? & ? & ->)
+  | H : lang c_optbuild _ |- _ => apply lang_c_optbuild in H; destruct H as (? & ? & ->)
+  end.
+  match goal with
+  | Ha : good_num ?a, Hb : good_num ?b, Hc : good_num ?c,
+    H1 : opt_wf pre_ident ?o1, H2 : opt_wf build_ident ?o2
+    |- exists p, wf p /\ [] ++ ?a ++ [46] ++ ?b ++ [46] ++ ?c ++ _ = render p =>
+      exists (mk_parts a b c o1 o2)
+  end.
+  split.
+  - unfold wf. cbn [pt_major pt_minor pt_patch pt_pre pt_build]. tauto.
+  - unfold render. cbn [pt_major pt_minor pt_patch pt_pre pt_build app].
+    rewrite ?app_nil_r. reflexivity.
 Qed.
 
 Theorem valid_struct s : sv_valid s = true -> exists p, wf p /\ bytes s = render p.
 Proof.
   unfold sv_valid. rewrite matches_lang, core_semver. apply lang_c_semver.
+Qed.
+
+(* ====================================================================== *)
+(* 4. characters that do not occur                                        *)
+(* ====================================================================== *)
+
+Definition nochar (c : N) (s : bs) : Prop := ~ In c s.
+
+Lemma nochar_nil c : nochar c [].
+Proof. intros H. exact H. Qed.
+
+Lemma nochar_app c a b : nochar c (a ++ b) <-> nochar c a /\ nochar c b.
+Proof. unfold nochar. rewrite in_app_iff. tauto. Qed.
+
+Lemma nochar_cons c d a : nochar c (d :: a) <-> d <> c /\ nochar c a.
+Proof. unfold nochar. cbn [In]. tauto. Qed.
+
+Lemma nochar_fm c l : c <> 46 -> Forall (nochar c) l -> nochar c (flat_map (cons 46) l).
+Proof.
+  intros Hc H. induction H as [|y l Hy _ IH]; cbn [flat_map].
+  - apply nochar_nil.
+  - change ((46 :: y) ++ flat_map (cons 46) l) with (46 :: y ++ flat_map (cons 46) l).
+    apply nochar_cons. split; [congruence|]. apply nochar_app. split; assumption.
+Qed.
+
+Lemma nochar_dotted c x l :
+  c <> 46 -> nochar c x -> Forall (nochar c) l -> nochar c (dotted x l).
+Proof.
+  intros Hc Hx Hl. unfold dotted. apply nochar_app. split; [assumption|].
+  apply nochar_fm; assumption.
+Qed.
+
+Lemma is_num_nochar c s : is_num s = true -> is_digit c = false -> nochar c s.
+Proof.
+  intros Hs Hc Hin. unfold is_num in Hs. rewrite forallb_forall in Hs.
+  apply Hs in Hin. congruence.
+Qed.
+
+Lemma all_ident_nochar c s : all_ident s -> is_ident_char c = false -> nochar c s.
+Proof.
+  intros Hs Hc Hin. unfold all_ident in Hs. rewrite forallb_forall in Hs.
+  apply Hs in Hin. congruence.
+Qed.
+
+Lemma good_num_nochar c s : good_num s -> is_digit c = false -> nochar c s.
+Proof. intros (H & _) Hc. apply is_num_nochar; assumption. Qed.
+
+Lemma pre_ident_nochar c s : pre_ident s -> is_ident_char c = false -> nochar c s.
+Proof. intros (H & _) Hc. apply all_ident_nochar; assumption. Qed.
+
+Lemma build_ident_nochar c s : build_ident s -> is_ident_char c = false -> nochar c s.
+Proof. intros (H & _) Hc. apply all_ident_nochar; assumption. Qed.
+
+Lemma Forall_pre_nochar c l :
+  Forall pre_ident l -> is_ident_char c = false -> Forall (nochar c) l.
+Proof.
+  intros H Hc. eapply Forall_impl; [|exact H]. intros s Hs. apply pre_ident_nochar; assumption.
+Qed.
+
+Lemma Forall_build_nochar c l :
+  Forall build_ident l -> is_ident_char c = false -> Forall (nochar c) l.
+Proof.
+  intros H Hc. eapply Forall_impl; [|exact H]. intros s Hs. apply build_ident_nochar; assumption.
+Qed.
+
+(* [rest] is empty or starts with [sep] *)
+Definition starts (sep : N) (rest : bs) : Prop := rest = [] \/ exists t, rest = sep :: t.
+
+Lemma starts_render_opt sep o : starts sep (render_opt sep o).
+Proof. destruct o as [[x l]|]; [right; eexists; reflexivity|left; reflexivity]. Qed.
+
+Lemma starts_fm l : starts 46 (flat_map (cons 46) l).
+Proof. destruct l as [|y l]; [left; reflexivity|right; eexists; reflexivity]. Qed.
+
+Lemma before_app sep a rest : nochar sep a -> starts sep rest -> before sep (a ++ rest) = a.
+Proof.
+  intros Ha Hr. induction a as [|c a IH]; cbn [app before].
+  - destruct Hr as [->|(t & ->)]; [reflexivity|]. cbn [before]. rewrite N.eqb_refl. reflexivity.
+  - apply nochar_cons in Ha. destruct Ha as [Hc Ha].
+    apply N.eqb_neq in Hc. rewrite Hc. rewrite (IH Ha). reflexivity.
+Qed.
+
+Lemma before_nochar sep a : nochar sep a -> before sep a = a.
+Proof.
+  intros Ha. rewrite <- (app_nil_r a) at 1. apply before_app; [assumption|left; reflexivity].
+Qed.
+
+Lemma after_nochar sep a : nochar sep a -> after sep a = None.
+Proof.
+  intros Ha. induction a as [|c a IH]; cbn [after]; [reflexivity|].
+  apply nochar_cons in Ha. destruct Ha as [Hc Ha]. apply N.eqb_neq in Hc. rewrite Hc. exact (IH Ha).
+Qed.
+
+Lemma after_app sep a t : nochar sep a -> after sep (a ++ sep :: t) = Some t.
+Proof.
+  intros Ha. induction a as [|c a IH]; cbn [app after].
+  - rewrite N.eqb_refl. reflexivity.
+  - apply nochar_cons in Ha. destruct Ha as [Hc Ha]. apply N.eqb_neq in Hc. rewrite Hc. exact (IH Ha).
+Qed.
+
+Lemma split_on_one sep a : nochar sep a -> split_on sep a = [a].
+Proof.
+  intros Ha. induction a as [|c a IH]; cbn [split_on]; [reflexivity|].
+  apply nochar_cons in Ha. destruct Ha as [Hc Ha]. apply N.eqb_neq in Hc.
+  rewrite Hc, (IH Ha). reflexivity.
+Qed.
+
+Lemma split_on_app sep a r :
+  nochar sep a -> split_on sep (a ++ sep :: r) = a :: split_on sep r.
+Proof.
+  intros Ha. induction a as [|c a IH]; cbn [app split_on].
+  - rewrite N.eqb_refl. reflexivity.
+  - apply nochar_cons in Ha. destruct Ha as [Hc Ha]. apply N.eqb_neq in Hc.
+    rewrite Hc, (IH Ha). reflexivity.
+Qed.
+
+Lemma dotted_nil x : dotted x [] = x.
+Proof. unfold dotted. cbn [flat_map]. apply app_nil_r. Qed.
+
+Lemma dotted_cons x y l : dotted x (y :: l) = x ++ 46 :: dotted y l.
+Proof. reflexivity. Qed.
+
+Lemma fm_cons y l : flat_map (cons 46) (y :: l) = 46 :: dotted y l.
+Proof. reflexivity. Qed.
+
+Lemma split_on_dotted l : forall x,
+  nochar 46 x -> Forall (nochar 46) l -> split_on 46 (dotted x l) = x :: l.
+Proof.
+  induction l as [|y l IH]; intros x Hx Hl.
+  - rewrite dotted_nil. apply split_on_one. assumption.
+  - inversion Hl; subst. rewrite dotted_cons, split_on_app by assumption.
+    rewrite IH by assumption. reflexivity.
+Qed.
+
+Lemma length_fm l : (List.length l <= List.length (flat_map (cons 46) l))%nat.
+Proof.
+  induction l as [|y l IH]; cbn [flat_map List.length]; [lia|].
+  rewrite app_length. cbn [List.length]. lia.
+Qed.
+
+Lemma next_ident_app x r : nochar 46 x -> starts 46 r -> next_ident (x ++ r) = (x, r).
+Proof.
+  intros Hx Hr. induction x as [|c x IH]; cbn [app next_ident].
+  - destruct Hr as [->|(t & ->)]; [reflexivity|]. cbn [next_ident]. rewrite N.eqb_refl. reflexivity.
+  - apply nochar_cons in Hx. destruct Hx as [Hc Hx]. apply N.eqb_neq in Hc.
+    rewrite Hc, (IH Hx). reflexivity.
+Qed.
+
+(* concrete characters *)
+Lemma ic46 : is_ident_char 46 = false. Proof. reflexivity. Qed.
+Lemma ic43 : is_ident_char 43 = false. Proof. reflexivity. Qed.
+Lemma dg46 : is_digit 46 = false. Proof. reflexivity. Qed.
+Lemma dg45 : is_digit 45 = false. Proof. reflexivity. Qed.
+Lemma dg43 : is_digit 43 = false. Proof. reflexivity. Qed.
+
+(* ====================================================================== *)
+(* 5. x/mod/semver's parser succeeds on structured strings                *)
+(* ====================================================================== *)
+
+Definition nd_head (rest : bs) : Prop :=
+  match rest with [] => True | c :: _ => is_digit c = false end.
+
+Lemma span_digits_app n rest :
+  is_num n = true -> nd_head rest -> span_digits (n ++ rest) = (n, rest).
+Proof.
+  intros Hn Hr. induction n as [|c n IH]; cbn [app span_digits].
+  - destruct rest as [|d rest]; [reflexivity|]. cbn [nd_head] in Hr. cbn [span_digits].
+    rewrite Hr. reflexivity.
+  - rewrite is_num_cons, andb_true_iff in Hn. destruct Hn as [Hc Hn].
+    rewrite Hc, (IH Hn). reflexivity.
+Qed.
+
+Lemma parse_int_app n rest :
+  good_num n -> nd_head rest -> parse_int (n ++ rest) = Some (n, rest).
+Proof.
+  intros (Hn & Hne & H0) Hr. destruct n as [|c t]; [congruence|].
+  unfold parse_int. cbn [app].
+  change (c :: t ++ rest) with ((c :: t) ++ rest).
+  rewrite (span_digits_app (c :: t) rest Hn Hr).
+  rewrite is_num_cons, andb_true_iff in Hn. destruct Hn as [Hc Ht]. rewrite Hc. cbn [negb].
+  destruct (c =? 48) eqn:E; [|reflexivity].
+  apply N.eqb_eq in E. subst c. rewrite (H0 t eq_refl). reflexivity.
+Qed.
+
+Lemma ident_end_bad_false y : pre_ident y -> ident_end_bad y = false.
+Proof.
+  intros (_ & Hne & H0). destruct y as [|c t]; [congruence|].
+  unfold ident_end_bad, is_bad_num.
+  destruct (is_num (c :: t)) eqn:En; [|reflexivity].
+  destruct (c =? 48) eqn:E; [|apply andb_false_r].
+  apply N.eqb_eq in E. subst c. rewrite (H0 eq_refl t eq_refl). reflexivity.
+Qed.
+
+Lemma ident_char_seps c :
+  is_ident_char c = true -> (c =? 43) = false /\ (c =? 46) = false.
+Proof.
+  intros H. apply is_ident_char_spec in H. split; apply N.eqb_neq; lia.
+Qed.
+
+Lemma all_ident_cons c x : all_ident (c :: x) <-> is_ident_char c = true /\ all_ident x.
+Proof. unfold all_ident. cbn [forallb]. apply andb_true_iff. Qed.
+
+Lemma pre_scan_dotted rest : starts 43 rest ->
+  forall l, Forall pre_ident l ->
+  forall x cur, all_ident x -> pre_ident (cur ++ x) ->
+  pre_scan cur (x ++ flat_map (cons 46) l ++ rest) = Some (x ++ flat_map (cons 46) l, rest).
+Proof.
+  intros Hr l Hl. induction Hl as [|y l Hy Hl IHl]; intros x;
+    induction x as [|c x IHx]; intros cur Hx Hcur.
+  - (* no identifier left, end of the pre-release *)
+    rewrite app_nil_r in Hcur. apply ident_end_bad_false in Hcur.
+    cbn [flat_map app]. destruct Hr as [->|(t & ->)]; cbn [pre_scan].
+    + rewrite Hcur. reflexivity.
+    + rewrite N.eqb_refl, Hcur. reflexivity.
+  - apply all_ident_cons in Hx. destruct Hx as [Hc Hx].
+    destruct (ident_char_seps c Hc) as [E43 E46].
+    cbn [app pre_scan]. rewrite E43, E46, Hc. cbn [negb andb].
+    rewrite (IHx (cur ++ [c])); [reflexivity|assumption|].
+    rewrite <- app_assoc. exact Hcur.
+  - (* a dot: the current identifier ends, the next one starts *)
+    rewrite app_nil_r in Hcur. apply ident_end_bad_false in Hcur.
+    rewrite fm_cons. unfold dotted. cbn [app pre_scan].
+    change (46 =? 43) with false. change (46 =? 46) with true.
+    change (is_ident_char 46) with false. cbn [negb andb]. rewrite Hcur.
+    rewrite <- app_assoc. rewrite (IHl y []); [reflexivity| |exact Hy].
+    destruct Hy as [Hy _]. exact Hy.
+  - apply all_ident_cons in Hx. destruct Hx as [Hc Hx].
+    destruct (ident_char_seps c Hc) as [E43 E46].
+    cbn [app pre_scan]. rewrite E43, E46, Hc. cbn [negb andb].
+    rewrite (IHx (cur ++ [c])); [reflexivity|assumption|].
+    rewrite <- app_assoc. exact Hcur.
+Qed.
+
+Lemma build_scan_dotted :
+  forall l, Forall build_ident l ->
+  forall x cur, all_ident x -> cur ++ x <> [] ->
+  build_scan cur (x ++ flat_map (cons 46) l) = true.
+Proof.
+  intros l Hl. induction Hl as [|y l Hy Hl IHl]; intros x;
+    induction x as [|c x IHx]; intros cur Hx Hcur.
+  - rewrite app_nil_r in Hcur. cbn [flat_map app build_scan].
+    destruct cur; [congruence|reflexivity].
+  - apply all_ident_cons in Hx. destruct Hx as [Hc Hx].
+    destruct (ident_char_seps c Hc) as [E43 E46].
+    cbn [app build_scan]. rewrite E46, Hc. cbn [negb andb].
+    apply IHx; [assumption|]. rewrite <- app_assoc. cbn [app].
+    intros E. apply app_eq_nil in E. destruct E as [_ E]. discriminate.
+  - rewrite app_nil_r in Hcur. rewrite fm_cons. unfold dotted. cbn [app build_scan].
+    change (46 =? 46) with true. change (is_ident_char 46) with false. cbn [negb andb].
+    destruct cur as [|c0 cur]; [congruence|].
+    apply (IHl y []); [destruct Hy as [Hy _]; exact Hy|].
+    cbn [app]. destruct Hy as [_ Hy]. exact Hy.
+  - apply all_ident_cons in Hx. destruct Hx as [Hc Hx].
+    destruct (ident_char_seps c Hc) as [E43 E46].
+    cbn [app build_scan]. rewrite E46, Hc. cbn [negb andb].
+    apply IHx; [assumption|]. rewrite <- app_assoc. cbn [app].
+    intros E. apply app_eq_nil in E. destruct E as [_ E]. discriminate.
+Qed.
+
+Definition parsed_of (p : parts) : parsed :=
+  mk_parsed (pt_major p) (pt_minor p) (pt_patch p)
+            (render_opt 45 (pt_pre p)) (render_opt 43 (pt_build p)).
+
+(* the optional pre-release step of [xparse] *)
+Definition pre_step (v3 : bs) : option (bs * bs) :=
+  match v3 with
+  | 45 :: v3' => match pre_scan [] v3' with
+                 | Some (t, r) => Some (45 :: t, r)
+                 | None => None
+                 end
+  | _ => Some ([], v3)
+  end.
+
+Definition build_step (maj mi pa pre v4 : bs) : option parsed :=
+  match v4 with
+  | [] => Some (mk_parsed maj mi pa pre [])
+  | 43 :: v4' => if build_scan [] v4' then Some (mk_parsed maj mi pa pre v4) else None
+  | _ => None
+  end.
+
+Lemma pre_step_render o b :
+  opt_wf pre_ident o -> starts 43 b ->
+  pre_step (render_opt 45 o ++ b) = Some (render_opt 45 o, b).
+Proof.
+  intros Ho Hb. destruct o as [[x l]|]; cbn [render_opt opt_wf] in *.
+  - destruct Ho as [Hx Hl]. cbn [app pre_step]. unfold dotted. rewrite <- app_assoc.
+    rewrite (pre_scan_dotted b Hb l Hl x []); [reflexivity| |exact Hx].
+    destruct Hx as [Hx _]. exact Hx.
+  - cbn [app]. destruct Hb as [->|(t & ->)]; reflexivity.
+Qed.
+
+Lemma build_step_render maj mi pa pre o :
+  opt_wf build_ident o ->
+  build_step maj mi pa pre (render_opt 43 o) = Some (mk_parsed maj mi pa pre (render_opt 43 o)).
+Proof.
+  intros Ho. destruct o as [[x l]|]; cbn [render_opt opt_wf] in *; [|reflexivity].
+  destruct Ho as [Hx Hl]. cbn [build_step]. unfold dotted.
+  rewrite (build_scan_dotted l Hl x []); [reflexivity| |].
+  - destruct Hx as [Hx _]. exact Hx.
+  - cbn [app]. destruct Hx as [_ Hx]. exact Hx.
+Qed.
+
+Lemma xparse_steps maj mi pa rest :
+  good_num maj -> good_num mi -> good_num pa -> nd_head rest ->
+  xparse (maj ++ 46 :: mi ++ 46 :: pa ++ rest) =
+  match pre_step rest with
+  | None => None
+  | Some (pre, v4) => build_step maj mi pa pre v4
+  end.
+Proof.
+  intros Hmaj Hmi Hpa Hrest. unfold xparse.
+  rewrite parse_int_app; [|exact Hmaj|exact dg46].
+  change (negb (46 =? 46)) with false. cbv iota.
+  rewrite parse_int_app; [|exact Hmi|exact dg46].
+  change (negb (46 =? 46)) with false. cbv iota.
+  rewrite parse_int_app; [|exact Hpa|exact Hrest].
+  reflexivity.
+Qed.
+
+Lemma nd_head_render o1 o2 : nd_head (render_opt 45 o1 ++ render_opt 43 o2).
+Proof.
+  destruct o1 as [[x l]|]; [reflexivity|]. destruct o2 as [[y m]|]; [reflexivity|exact I].
+Qed.
+
+Theorem xparse_render p : wf p -> xparse (render p) = Some (parsed_of p).
+Proof.
+  destruct p as [maj mi pa pre build]. unfold wf, render, parsed_of.
+  cbn [pt_major pt_minor pt_patch pt_pre pt_build].
+  intros (Hmaj & Hmi & Hpa & Hpre & Hbuild).
+  rewrite (xparse_steps maj mi pa _ Hmaj Hmi Hpa (nd_head_render pre build)).
+  rewrite (pre_step_render pre _ Hpre (starts_render_opt 43 build)).
+  apply build_step_render. exact Hbuild.
+Qed.
+
+Theorem valid_parses : forall s, sv_valid s = true -> exists p, xparse (bytes s) = Some p.
+Proof.
+  intros s H. destruct (valid_struct s H) as (p & Hp & E).
+  exists (parsed_of p). rewrite E. apply xparse_render. exact Hp.
 Qed.
